@@ -89,6 +89,26 @@ theorem wrapping_irrelevant (cfg : Cfg) (h : Hdr) (raw : Line) (ls ls' rest : Li
   rw [section_load cfg h raw ls rest ts f n hraw hm hst hls hlen hpos,
     section_load cfg h raw ls' rest ts f n hraw hm hst hls' hlen hpos]
 
+/-- **the four explicit encodings at file level**: whatever the line layout `ls` of the listing that format
+`f` prescribes for the symmetric zero-diagonal matrix `M`, `_from_stream` continues after the section with
+exactly `M` — the same matrix for FULL_MATRIX, UPPER_ROW, LOWER_DIAG_ROW and UPPER_DIAG_ROW. -/
+theorem explicit_section_loads (cfg : Cfg) (h : Hdr) (raw : Line) (ls rest : List Line) (f : Fmt) (n : Nat)
+    (M : Matrix) (hM : Square M n) (hs : Symmetric M n) (hz : ZeroDiag M n) (h64 : FitsInt64 M) (hn : 2 ≤ n)
+    (hraw : strip raw = sEWS) (hm : h.matrix = none) (hst : startEdgeWeights h = some (f, n))
+    (hls : tokensOf ls = some (listOf f M)) :
+    loop cfg h .hdr (raw :: (ls ++ rest)) = loop cfg { h with matrix := some M } .hdr rest := by
+  have hlen := listOf_length hM f
+  have hpos : 0 < f.need n := by
+    have h1 : 1 ≤ n - 1 := by omega
+    have h2 : 2 ≤ n * (n - 1) := by
+      calc 2 ≤ n := hn
+        _ = n * 1 := (Nat.mul_one _).symm
+        _ ≤ n * (n - 1) := Nat.mul_le_mul_left _ h1
+    have h3 : 0 < n * n := Nat.mul_pos (by omega) (by omega)
+    cases f <;> simp only [Fmt.need] <;> omega
+  rw [section_load cfg h raw ls rest (listOf f M) f n hraw hm hst hls hlen hpos,
+    explicit_formats_agree M n hM hs hz h64 f]
+
 /-- blank lines (empty or white space only) between header lines are ignored -/
 theorem blank_lines_ignored (cfg : Cfg) (h : Hdr) (blanks rest : List Line) (hb : ∀ l ∈ blanks, strip l = []) :
     loop cfg h .hdr (blanks ++ rest) = loop cfg h .hdr rest := loop_hdr_blanks cfg h blanks rest hb
@@ -248,6 +268,22 @@ theorem tour_parser_perm (lines : List Line) (t : List Nat) (h : parseTour lines
   have hinv : TourInv {} := ⟨List.nodup_nil, by simp, rfl⟩
   obtain ⟨hnd, hlt⟩ := tourLoop_perm lines {} t hinv h
   exact perm_range_of_nodup_lt t hnd hlt
+
+/-! ### the metric characterisations (specification side only — the float code is *tested* against them) -/
+
+/-- the integer characterisation of `nint(sqrt(A / B))` has at most one solution, so `spec = true` in the
+harness pins the value -/
+theorem nint_unique (A B r r' : Nat) (h : IsNintSqrt A B r) (h' : IsNintSqrt A B r') : r = r' :=
+  nint_unique_arith A B r r' h h'
+
+theorem ceil_unique (A B r r' : Nat) (h : IsCeilSqrt A B r) (h' : IsCeilSqrt A B r') : r = r' :=
+  ceil_unique_arith A B r r' h h'
+
+/-- TSPLIB95's ATT rule (`tij = nint(rij); dij = tij + 1 if tij < rij else tij` with
+`rij = sqrt((xd² + yd²) / 10)`) is the ceiling of `rij` -/
+theorem att_is_ceil (S D d : Nat) (hD : 0 < D) : IsAtt S D d ↔ IsCeilSqrt S (10 * (D * D)) d := by
+  unfold IsAtt IsNintSqrt IsCeilSqrt
+  exact att_ceil_arith S (10 * (D * D)) d (Nat.mul_pos (by decide) (Nat.mul_pos hD hD))
 
 /-! ### the hypotheses are satisfiable -/
 
